@@ -42,9 +42,13 @@ pub struct Run {
 }
 
 /// One session: `script` decides the next command from the observations so far (None = end).
-pub fn session(exe: &str, mut script: impl FnMut(&[Value]) -> Option<Value>, per_cmd: Duration, max_cmds: usize) -> Run {
+pub fn session(exe: &str, script: impl FnMut(&[Value]) -> Option<Value>, per_cmd: Duration, max_cmds: usize) -> Run {
+    session_init(json!({"exe": exe, "args": []}), script, per_cmd, max_cmds)
+}
+
+pub fn session_init(init: Value, mut script: impl FnMut(&[Value]) -> Option<Value>, per_cmd: Duration, max_cmds: usize) -> Run {
     let mut run = Run { obs: vec![], result: None, hang_at: None, crashed: None };
-    let mut s = match ISession::start("e2e", &json!({"exe": exe, "args": []})) {
+    let mut s = match ISession::start("e2e", &init) {
         Ok(s) => s,
         Err(e) => {
             run.crashed = Some(format!("cannot start worker: {e}"));
@@ -438,7 +442,13 @@ pub fn part_c15_threads(_tier: Tier) -> Part {
 pub fn replay(rp: &Value) -> i32 {
     let exe = rp["exe"].as_str().unwrap_or("").to_string();
     let cmds: Vec<Value> = rp["commands"].as_array().cloned().unwrap_or_default();
-    let run = session(&exe, |obs| cmds.get(obs.len()).cloned(), Duration::from_secs(20), cmds.len());
+    let mut init = json!({"exe": exe, "args": []});
+    if let Some(m) = rp["init"].as_object() {
+        for (k, v) in m {
+            init[k] = v.clone();
+        }
+    }
+    let run = session_init(init, |obs| cmds.get(obs.len()).cloned(), Duration::from_secs(20), cmds.len());
     for o in &run.obs {
         println!("{} -> {} events {} tasks {} threads {}", o["cmd"], o["res"], o["events"], o["tasks"], o["threads"]);
     }
@@ -513,5 +523,113 @@ pub fn part_c10_witnesses(_tier: Tier) -> Part {
             part.violate("C10:real:same-signal-reported-twice", format!("[{name}] reports per signal {reports:?}"), replay.clone());
         }
     }
+    part
+}
+
+
+/// C11, attached processes: detach / quit leave every thread of the external process alive,
+/// untraced, with original code and no hardware breakpoints; threads created after the attach
+/// included.
+pub fn part_c11_attach(tier: Tier) -> Part {
+    let mut part = Part::new("c11_attach");
+    part.rule = "the debuggee is started by the harness and attached to while it runs (two threads, a third is created 120 ms later); every history over {break in worker code, break at thread entry, watch a global, continue} x {detach, drop} is followed by an independent inspection: no task has a tracer or sits in a tracing stop, no task has an enabled debug-register slot, the text equals the file, and the process finishes with its native output and exit code".into();
+    let o = corpus::MtOpts { workers: 1, iters: 500, main_iters: 0, spin: 0, late_workers: 1, late_ms: 120, worker_sleep_us: 1000 };
+    let built = match corpus::build(&corpus::generate_mt_opts(&o), &Config::default_cfg()) {
+        Ok(b) => b,
+        Err(e) => {
+            part.violate("MACHINERY:mt-build", e, json!(null));
+            return part;
+        }
+    };
+    let line = |l: &str| built.program.lines.iter().find(|(_, x)| x == l).map(|(n, _)| *n as u64).unwrap_or(0);
+    let bp = |l: &str| json!({"op": "break_line", "file": built.program.src_file, "line": line(l)});
+    let native = std::process::Command::new(&built.exe).output().ok();
+    let native_out = native.as_ref().map(|o| String::from_utf8_lossy(&o.stdout).to_string()).unwrap_or_default();
+    let native_code = native.as_ref().and_then(|o| o.status.code());
+    let info = crate::reftrace::elf_info(&built.exe).ok();
+    let acc = info.as_ref().and_then(|i| i.data_symbols.iter().find(|(s, _, _)| s == "ACC" || s.contains("3ACC")).map(|(_, a, _)| *a));
+    let mut prefixes: Vec<(String, Vec<Value>)> = vec![
+        ("nothing".into(), vec![]),
+        ("bp-in-worker".into(), vec![bp("bump.1"), json!({"op": "continue"})]),
+        ("bp-in-worker-twice".into(), vec![bp("bump.1"), json!({"op": "continue"}), json!({"op": "continue"})]),
+        ("bp-at-late-thread-entry".into(), vec![bp("worker.1"), json!({"op": "continue"})]),
+        ("bp-at-late-thread-entry-then-worker".into(), vec![bp("worker.1"), json!({"op": "continue"}), bp("bump.1"), json!({"op": "continue"})]),
+    ];
+    if let Some(a) = acc {
+        prefixes.push(("watch-global".into(), vec![json!({"op": "watch_addr", "addr": a, "size": 8, "cond": "w"}), bp("bump.1"), json!({"op": "continue"})]));
+        prefixes.push(("watch-global-late-thread".into(), vec![json!({"op": "watch_addr", "addr": a, "size": 8, "cond": "w"}), bp("worker.1"), json!({"op": "continue"})]));
+    }
+    if tier == Tier::Thorough {
+        prefixes.push(("bp-in-worker-x4".into(), vec![bp("bump.1"), json!({"op": "continue"}), json!({"op": "continue"}), json!({"op": "continue"}), json!({"op": "continue"})]));
+        prefixes.push(("stepi-after-attach".into(), vec![json!({"op": "stepi"}), json!({"op": "stepi"})]));
+    }
+    for (pname, prefix) in &prefixes {
+        for term in ["detach", "drop"] {
+            let mut cmds = prefix.clone();
+            cmds.push(if term == "detach" { json!({"op": "detach"}) } else { json!({"op": "drop", "external": true}) });
+            cmds.push(json!({"op": "post_detach_check_mt", "settle_ms": 10}));
+            // attaching scans the whole process table (sysinfo): on a loaded machine the program may
+            // be over before the debugger is attached; that says nothing, try again
+            // the program may also run to its end inside a `continue` (the attach came late and the
+            // breakpoint was already behind every thread): then the history is over
+            let script = |obs: &[Value]| if obs.last().map(|o| kind(o) == "exit").unwrap_or(false) { None } else { cmds.get(obs.len()).cloned() };
+            let mut run = session_init(json!({"exe": built.exe, "args": [], "attach": true, "attach_delay_ms": 25}), script, Duration::from_secs(15), cmds.len());
+            for _ in 0..3 {
+                if !run.crashed.as_ref().map(|c| c.contains("launch_error")).unwrap_or(false) {
+                    break;
+                }
+                let _ = std::process::Command::new("/usr/bin/pkill").args(["-9", "-f", &built.exe]).status();
+                run = session_init(json!({"exe": built.exe, "args": [], "attach": true, "attach_delay_ms": 25}), script, Duration::from_secs(15), cmds.len());
+            }
+            part.evaluations += 1;
+            part.states += run.obs.len() as u64;
+            part.transitions += run.obs.len() as u64;
+            part.traces_validated += 1;
+            let name = format!("{pname}/{term}");
+            let replay = json!({"engine": "mt", "exe": built.exe, "init": {"attach": true, "attach_delay_ms": 25}, "commands": cmds});
+            if run.hang_at.is_some() || run.crashed.is_some() {
+                part.violate("C11:attach:session-broke", format!("[{name}] hang {:?} crash {:?}", run.hang_at, run.crashed), replay);
+                let _ = std::process::Command::new("/usr/bin/pkill").args(["-9", "-f", &built.exe]).status();
+                continue;
+            }
+            if let Some(bad) = run.obs.iter().find(|o| o["res"]["ok"] == false) {
+                part.violate("C11:attach:command-failed", format!("[{name}] {} -> {}", bad["cmd"], bad["res"]), replay.clone());
+                let _ = std::process::Command::new("/usr/bin/pkill").args(["-9", "-f", &built.exe]).status();
+                continue;
+            }
+            if let Some(ex) = run.obs.iter().find(|o| kind(o) == "exit") {
+                let out = run.result.as_ref().and_then(|r| r["stdout"].as_str()).unwrap_or("").to_string();
+                if ex["res"]["code"].as_i64() != native_code.map(|c| c as i64) || out != native_out {
+                    part.violate("C11:attach:exit-code-or-output-wrong", format!("[{name}] ran to the end under the debugger: exit {} stdout {out:?}; native exit {native_code:?} stdout {native_out:?}", ex["res"]["code"]), replay.clone());
+                }
+                continue;
+            }
+            let Some(chk) = run.obs.last().map(|o| o["res"].clone()) else { continue };
+            let tasks = chk["tasks"].as_array().cloned().unwrap_or_default();
+            if tasks.len() > 1 {
+                part.distinct_nontrivial += 1;
+            }
+            for t in &tasks {
+                if t["tracer_pid"].as_i64().unwrap_or(0) != 0 {
+                    part.violate(format!("C11:attach:{term}:thread-still-traced"), format!("[{name}] task {} has TracerPid {} after {term} (tasks {tasks:?})", t["tid"], t["tracer_pid"]), replay.clone());
+                } else if t["state"] == "t" || t["state"] == "T" {
+                    part.violate(format!("C11:attach:{term}:thread-left-stopped"), format!("[{name}] task {} is in state {} after {term}", t["tid"], t["state"]), replay.clone());
+                }
+                if t["dr7"].as_u64().map(|d| d & 0xff != 0).unwrap_or(false) {
+                    part.violate(format!("C11:attach:{term}:hardware-breakpoint-left"), format!("[{name}] task {} has DR7 {:#x} after {term}", t["tid"], t["dr7"].as_u64().unwrap_or(0)), replay.clone());
+                }
+            }
+            if chk["text_diff"].as_array().map(|d| !d.is_empty()).unwrap_or(false) {
+                part.violate(format!("C11:attach:{term}:code-patched"), format!("[{name}] text differs from the file at {}", chk["text_diff"]), replay.clone());
+            }
+            if chk["exit_code"].as_i64() == Some(-5) {
+                part.violate(format!("C11:attach:{term}:released-process-killed-by-SIGTRAP"), format!("[{name}] after {term} the process was killed by SIGTRAP (a breakpoint trap the tracer had not consumed, or an INT3 left in the code); stdout {:?}", chk["stdout"]), replay.clone());
+            } else if chk["exit_code"].as_i64() != native_code.map(|c| c as i64) || chk["stdout"].as_str() != Some(native_out.as_str()) {
+                part.violate(format!("C11:attach:{term}:process-did-not-finish-natively"), format!("[{name}] exit {} stdout {:?}; native exit {native_code:?} stdout {native_out:?}", chk["exit_code"], chk["stdout"]), replay.clone());
+            }
+            part.sample(json!({"history": name, "tasks_after": tasks, "exit_code": chk["exit_code"]}));
+        }
+    }
+    part.bounds = json!({"prefixes": prefixes.len(), "terminals": 2, "threads": "2, a third created after the attach"});
     part
 }
